@@ -4,10 +4,11 @@
 (*   inp = [tree   : the formula tree F's text was rendered from, or <<"NoTree">>,                  *)
 (*          spell, ftext, pytext : the spelling, F's text, the plain-Python text (atoms),           *)
 (*          xkind, xpos, xnl, xtext, xlen : X's text and where it came from (atoms, not inspected), *)
-(*          how    : "modify" | "meta" - the user action that set the formulas,                     *)
+(*          how    : "modify" | "meta" - the user action that set the formulas (ModifyColumn /      *)
+(*                   UpdateRecord on _grist_Tables_column), src : where the item came from,         *)
 (*          rows, newrow]                                                                          *)
 (*   out = [f_ok, f_exc, s1, x_ok, x_exc, same, s2, xclass, add_ok, add_exc, s3, fix_ok, fix_exc,   *)
-(*          s4, elsewhere, py]   as described in FormulaText                                        *)
+(*          s4, elsewhere, consistent, py]   as described in FormulaText                            *)
 (* Verdict per case: failed clauses "C19.*" (the property) and "SPEC.*" (the specification or the   *)
 (* renderer disagrees with Python itself on the tree: machinery, never a violation).                *)
 EXTENDS FormulaText, TLC, Json, IOUtils
